@@ -27,6 +27,8 @@ ASSUMPTIONS = [
     "(floats are multiples of 1/8; rewrites never re-associate arithmetic).",
     "Nothing is required when the original raises (First on an empty sequence).",
     "The input AST may be modified by the simplifier (the property does not claim preservation); a deep copy is evaluated first.",
+    "The simplifier's dedicated index error (C18) is accepted when the query indexes a tuple/list literal with a variable: the "
+    "index can become a constant beyond the end once an argument is substituted for it.",
 ]
 BUDGET = {"quick": (8, 1000), "thorough": (16, 12000)}
 
@@ -174,7 +176,11 @@ def semantic_check(case, r: Result, allow_index_error=False, total=False):
     try:
         out = simplify_chained_calls().visit(work)
     except FuncADLIndexError as e:
-        if allow_index_error:
+        # a variable index into a tuple/list literal can become a constant beyond the end once an argument is substituted
+        # for it: then the simplifier's dedicated index error is its documented (C18) behaviour, not a failure
+        variable_index = any(isinstance(n, ast.Subscript) and isinstance(n.value, (ast.Tuple, ast.List)) and not isinstance(n.slice, (ast.Constant, ast.Slice))
+                             for n in ast.walk(tree))
+        if allow_index_error or variable_index:
             r.labels.append("FuncADLIndexError")
             return tree, None, expect
         r.fail(f"simplify_chained_calls raised FuncADLIndexError: {e}; input {case['src']}")
